@@ -1,6 +1,6 @@
 (* C17 - non-vacuity examples and refutation witnesses. *)
 From Coq Require Import Reals QArith List ZArith Lra Lia Permutation.
-Require Import Kawin.Common.Ops Kawin.Common.Vec Kawin.Common.VecLemmas Kawin.C17.Model Kawin.C17.Proofs.
+Require Import Kawin.Common.Ops Kawin.Common.Vec Kawin.Common.VecLemmas Kawin.C17.Model Kawin.C17.Proofs Kawin.C17.Hom.
 Import ListNotations.
 
 (* ---- the hypotheses of the bound theorems are satisfiable: three phases, distinct mobilities - *)
@@ -28,6 +28,14 @@ Example rules_example :
   map (fun r => applyRule Qops qtiny qmaxf r (fun f => f) 2 exM exF) [WienerLower; HashinLower; HashinUpper; WienerUpper; Labyrinth]
   = [[32#21; 4]; [118#61; 4]; [688#263; 4]; [3; 4]; [3; 4]].
 Proof. vm_compute. reflexivity. Qed.
+
+(* the hypotheses of C17_exec_is_model / C17_bounds_ordered_exec are met by column 0 *)
+Example exec_example :
+  Forall pos_pairQ [(1#4, 2); (1#2, 1); (1#4, 8)] /\ sumT Qops (map fst [(1#4, 2); (1#2, 1); (1#4, 8)]) == 1.
+Proof.
+  split; [|vm_compute; reflexivity].
+  repeat (constructor; [split; vm_compute; first [reflexivity | discriminate]|]). constructor.
+Qed.
 
 (* labyrinth with factor 2 is strictly below upper Wiener *)
 Example labyrinth_example : applyRule Qops qtiny qmaxf Labyrinth (fun f => powT Qops f 2) 2 exM exF = [7#8; 3#2].
